@@ -478,6 +478,12 @@ class Inputs:
                 A = self._zero_blocks(A, o)
                 if A.is_zero_matrix and w["fmt"] == "sympy_expr":
                     A[0, 0] = 1  # a vanishing term would remove its symbol from the expression
+                if alter is not None and not any(leq(o, n) for n in alter["cone"]):
+                    # altered twin (C12): a term outside the protected cone is something else entirely - in a Hermitian-mode world
+                    # given as one expression or with monomial keys even a term that is not Hermitian (nobody inside the cone looks)
+                    A = A * 7
+                    if alter.get("nonherm") and N >= 2:
+                        A[0, N - 1] = A[0, N - 1] + 1 + sympy.I
                 self.full[o] = A
         else:
             e = np.concatenate([2.5 * b + np.sort(rg.uniform(0, 1, size=s)) for b, s in enumerate(sizes)])
